@@ -23,7 +23,7 @@ pub const RULE: &str = "decider 1 (taint): the C14 scalar type logs every to_f64
 
 pub fn gen_case(t: &mut Tape, tier: Tier) -> Option<c09::Case> {
     let g = gen::gen_phys_graph(t, tier.pick(7, 8), 5, 0.3, 6)?;
-    let (free, masses) = gen::gen_kin_data(t, &g);
+    let (free, masses) = gen::gen_kin_data_unit(t, &g);
     // exactly representable kinematics: the two routings must be equivalent to all 106 bits
     let free: Vec<Vec<f64>> = free.iter().map(|p| p.iter().map(|&v| gen::grid16(v)).collect()).collect();
     let kin = gen::gen_routing_exact(t, &g, &free, &masses, 3);
